@@ -19,6 +19,7 @@ mod c11;
 mod c12;
 mod c13;
 mod c14;
+mod c16;
 mod gen_recipe;
 mod image;
 mod inputs;
@@ -51,6 +52,7 @@ fn dispatch(id: &str) -> Option<(fn(Tier) -> i32, ReplayFn)> {
         "C12" => (c12::run, |_p, j| c12::replay(j)),
         "C13" => (c13::run, c13::replay),
         "C14" => (c14::run, c14::replay),
+        "C16" => (c16::run, c16::replay),
         _ => return None,
     })
 }
